@@ -136,18 +136,10 @@ impl BigInt {
 pub open spec fn is_modpow(b: int, e: nat, m: int, r: int) -> bool { exists|k: int| r == vstd::arithmetic::power::pow(b, e) + #[trigger] (k * m) }
 
 impl BigUint {
-    //@ assume BigUint::modpow : dispatch to monty_modpow (odd modulus) / plain_modpow (even); both assumed (Montgomery kernels and window exponentiation: units pending); contract from the property statement
-    #[verifier::external_body]
-    pub fn modpow(&self, exponent: &Self, modulus: &Self) -> (r: Self)
-        requires self.wf(), exponent.wf(), modulus.wf(), !mp() ==> modulus.v() != 0
-        ensures mp() ==> modulus.v() != 0, r.wf(), r.v() < modulus.v(), is_modpow(self.v() as int, exponent.v(), modulus.v() as int, r.v() as int)
-    { unimplemented!() }
-    //@ assume BigUint::is_odd : first-digit parity through num_integer::Integer on u64 (external crate)
-    #[verifier::external_body]
-    pub fn is_odd(&self) -> (r: bool)
-        ensures r == (self.v() % 2 == 1)
-    { unimplemented!() }
+//@ stub u_modpow/BigUint_modpow
+//@ stub u_modpow/is_odd
 }
+
 impl BigInt {
     // re-homed `Integer::is_odd for BigInt` (src/bigint.rs): `self.data.is_odd()`
 //@ extract src/bigint.rs :: impl Integer for BigInt :: fn is_odd props=C13 label=bigint_is_odd
